@@ -206,4 +206,48 @@ def applyEdits (edits : List HeaderEdit) (fs : List Field) : List Field :=
     | .set => some (Field.hdr e.key e.val)
   kept ++ inserted
 
+-- -------------------------------- request-side rewrites and header edits --
+def sXFHost : Bytes := [120, 45, 102, 111, 114, 119, 97, 114, 100, 101, 100, 45, 104, 111, 115, 116]  -- 'x-forwarded-host'
+def cXFHost : Bytes := [88, 45, 70, 111, 114, 119, 97, 114, 100, 101, 100, 45, 72, 111, 115, 116]  -- 'X-Forwarded-Host'
+
+/-- a per-frontend request-position `Header`: empty `val` deletes by name, a
+    non-empty one is appended -/
+structure ReqEdit where
+  key : Bytes
+  val : Bytes
+deriving DecidableEq, Repr
+
+/-- the lower-cased names the delete pass of
+    `mux/router.rs::apply_request_rewrites_and_headers` removes -/
+def reqDropKeys (rewriting : Bool) (edits : List ReqEdit) : List Bytes :=
+  (edits.filter (·.val.isEmpty)).map (lower ·.key) ++
+  (if rewriting || edits.any (eqNoCase ·.key sHost) then [sHost] else []) ++
+  (if rewriting || edits.any (eqNoCase ·.key sXFHost) then [sXFHost] else [])
+
+/-- the blocks inserted before the end-of-headers flag: the synthetic `Host` /
+    `X-Forwarded-Host` of a host rewrite first, then the operator's non-empty edits -/
+def reqInserted (rewrittenHost origAuthority : Option Bytes) (edits : List ReqEdit) : List Field :=
+  (match rewrittenHost with
+   | some h => [Field.hdr cHost h] ++ (match origAuthority with | some o => [.hdr cXFHost o] | none => [])
+   | none => []) ++
+  (edits.filter (!·.val.isEmpty)).map fun e => Field.hdr e.key e.val
+
+/-- `apply_request_rewrites_and_headers` on the header blocks: every block whose
+    lower-cased name is in the drop set is removed (`retain`), then the
+    insertions land at the end of the header section -/
+def routerPass (rewrittenHost origAuthority rewrittenPath : Option Bytes) (edits : List ReqEdit)
+    (fs : List Field) : List Field :=
+  if rewrittenHost.isNone && rewrittenPath.isNone && edits.isEmpty then fs else
+  let drop := reqDropKeys rewrittenHost.isSome edits
+  (fs.filter fun f =>
+    match fieldKeyLower f with
+    | some k => !drop.contains k
+    | none => true) ++ reqInserted rewrittenHost origAuthority edits
+
+/-- the whole request as the router leaves it (status line rewritten too) -/
+def routeReq (rewrittenHost origAuthority rewrittenPath : Option Bytes) (edits : List ReqEdit) (r : Req) : Req :=
+  if rewrittenHost.isNone && rewrittenPath.isNone && edits.isEmpty then r else
+  { r with host := rewrittenHost.getD r.host, target := rewrittenPath.getD r.target,
+           fields := routerPass rewrittenHost origAuthority rewrittenPath edits r.fields }
+
 end Sozu.Headers
